@@ -144,6 +144,11 @@ def saveLine (fm : Fmt) (maxLen : Nat) (b : Binding) : R (Option Bytes) :=
     match b.val with
     -- a named function under its own name is written as its definition (fix: only under its own name)
     | .func f => if f.name.map toBytes == some b.name then pure (some (funcInspect f ++ [10])) else value
+    -- an extension function is written by its name (fix: its printed form, `sin(float)`, does not evaluate)
+    | .ext n =>
+      let val := toBytes n
+      if maxLen > 0 && val.length > maxLen then pure none
+      else pure (some (b.name ++ [61] ++ val ++ [10]))
     | _ => value
 
 /-- bytewise `<=` on names (`slices.Sort` on Go strings) -/
